@@ -170,6 +170,10 @@ func genC14(p *Plan, r *RNG) {
 		genC14Realloc(p, r)
 		return
 	}
+	if r.Chance(1, 12) {
+		genC14Backpressure(p, r)
+		return
+	}
 	if r.Chance(1, 6) {
 		genC14LatePeer(p, r)
 		return
@@ -319,5 +323,46 @@ func genC14(p *Plan, r *RNG) {
 		p.Flavor += "-tcp"
 		p.Ops[0].At = gap(sec) // the control connection has to be up before the first call
 	}
+	p.QuietNS = 10 * sec
+}
+
+// genC14Backpressure: a real client over a stream whose windows are tiny in both directions,
+// with traffic in both directions and many transactions in flight (every new peer costs a
+// CreatePermission and a ChannelBind, and with responses this slow the client retransmits).
+// Everything is slow; nothing may stop: each side must go on reading while it waits to write.
+func genC14Backpressure(p *Plan, r *RNG) {
+	baseSrvConfig(p, r)
+	p.Flavor = "e2e-tcp-backpressure"
+	p.Cfg.Listener = "tcp"
+	p.Cfg.LatCSns = int64(r.Range(5, 60))*ms + 3
+	p.Cfg.LatSPns = int64(r.Range(1, 10))*ms + 5
+	p.Cfg.RTOms = r.PickInt([]int{50, 100, 200})
+	p.Cfg.Extra = map[string]int64{}
+	p.Streams = []StreamCut{{Conn: "*", Window: r.PickInt([]int{600, 1024, 2048, 4096})}}
+	p.Clients = []ClientSpec{{ID: "c1", Addr: "10.0.1.1:4000", User: "u1", Pass: "pw-one", Kind: "real"}}
+	np := r.Range(3, 8)
+	for i := 0; i < np; i++ {
+		p.Peers = append(p.Peers, PeerSpec{ID: fmt.Sprintf("p%d", i+1), Addr: fmt.Sprintf("10.0.2.%d:%d", 1+i, 5000+i*17)})
+	}
+	add := func(o Op) { p.Ops = append(p.Ops, o) }
+	add(Op{Actor: "c1", Kind: "alloc", At: gap(sec)})
+	add(Op{Actor: "", Kind: "wait", At: gap(2 * sec)})
+	add(Op{Actor: "c1", Kind: "writeto", At: gap(100 * ms), A: OpArgs{Peer: p.Peers[0].Addr, Len: 40}})
+	add(Op{Actor: "", Kind: "wait", At: gap(6 * sec)})
+	// the storm: peers send toward the client, the client writes to old and new peers
+	for k := r.Range(30, 90); k > 0; k-- {
+		g := gap(int64(r.Range(1, 15)) * ms)
+		if r.Chance(1, 2) {
+			add(Op{Actor: p.Peers[0].ID, Kind: "peer_send", At: g, A: OpArgs{Target: "c1", Len: r.PickInt([]int{300, 900, 1200}), Flags: []string{"unpermitted"}}})
+		} else {
+			add(Op{Actor: "c1", Kind: "writeto", At: g, A: OpArgs{Peer: p.Peers[r.Intn(np)].Addr, Len: r.PickInt([]int{100, 700, 1200})}})
+		}
+	}
+	add(Op{Actor: "", Kind: "wait", At: gap(60 * sec)})
+	// afterwards the client is alive: a fresh exchange in both directions
+	add(Op{Actor: "c1", Kind: "writeto", At: gap(sec), A: OpArgs{Peer: p.Peers[0].Addr, Len: 50}})
+	add(Op{Actor: p.Peers[0].ID, Kind: "peer_send", At: gap(8 * sec), A: OpArgs{Target: "c1", Len: 60}})
+	add(Op{Actor: "c1", Kind: "close_relay", At: gap(5 * sec)})
+	add(Op{Actor: "", Kind: "wait", At: gap(10 * sec)})
 	p.QuietNS = 10 * sec
 }
